@@ -425,6 +425,22 @@ def _is_loaded_strategy(fd: FuncInfo, name: ast.Name) -> bool:
     return isinstance(v, ast.Call) and isinstance(v.func, ast.Attribute) and v.func.attr == "from_dict" and bool(derived_keys(fd, v))
 
 
+def _call_builds(P: Program, strategy_name: ast.Name, fd: FuncInfo, cls: ClassInfo) -> bool:
+    """Re-applying the loaded strategy gives back this very rule form only if some strategy
+    __call__ of the package constructs `cls` (VerificationStrategy -> VerificationRule) and
+    cls has no subclass: Rule itself is also what factories hand out as subclasses."""
+    if P.subclasses(cls, strict=True):
+        return False
+    for k in P.subclasses(P.need_class("AbstractStrategy"), strict=False):
+        m = k.methods.get("__call__")
+        if m is None:
+            continue
+        for r in C.returns_of(m.node):
+            if r.value is not None and isinstance(r.value, ast.Call) and norm(r.value.func) == cls.name:
+                return True
+    return False
+
+
 def _return_calls(m: FuncInfo) -> List[ast.Call]:
     defs = D.definitions(m.node)
     out = []
@@ -451,8 +467,10 @@ def j2_j3_constructor_round_trip(ctx) -> None:
             if callee == "cls":
                 target = cls
                 ctx.ok("J3", f"{fd.qualname} rebuilds through cls(...): subclasses keep their own form")
-            elif family(P, cls) == "rule" and isinstance(c.func, ast.Name) and _is_loaded_strategy(fd, c.func):
-                # VerificationRule: rebuilt by re-applying the strategy
+            elif family(P, cls) == "rule" and isinstance(c.func, ast.Name) and _is_loaded_strategy(fd, c.func) \
+                    and not any(isinstance(st_, ast.Call) and norm(st_.func) == "cls" for st_ in ast.walk(fd.node)) \
+                    and _call_builds(P, c.func, fd, cls):
+                # VerificationRule: rebuilt by re-applying the strategy, whose __call__ makes exactly this form
                 ctx.ok("J3", f"{fd.qualname} rebuilds by re-applying the loaded strategy")
                 # ... to the saved class only: whatever else the rule holds (its children) is recomputed by the
                 # strategy; a fixed extra argument replaces that computation (and the check that it still applies)
@@ -880,3 +898,63 @@ def j8_container_normalisation(ctx) -> None:
                                   "its own reloaded copy, which is always built from lists")
     if n == 0:
         ctx.floor("J8", 99)
+
+
+# ------------------------------------------------------------------------ J9
+def j9_class_ids_are_positions(ctx) -> None:
+    """The bijection dumps its classes into an array and writes the maps with array indices.
+    The id given to a class is its position in that array: a class is given `len(array)` at
+    the moment it is appended, and only when it has no id yet (a class can occur in several
+    pairs)."""
+    P = ctx.P
+    m = P.need_method("Bijection", "_classes_to_array", own=True)
+    f = m.node
+    ctx.analysed(m)
+    rets = [r for r in C.returns_of(f) if r.value is not None and isinstance(r.value, ast.Tuple) and len(r.value.elts) == 2]
+    if len(rets) != 1:
+        raise AnalysisError("J9: Bijection._classes_to_array no longer returns (id map, array)")
+    idm, arr = (norm(e) for e in rets[0].value.elts)
+    defs = D.definitions(f)
+    # comprehension form: ids from an enumeration -- right only if the enumerated sequence is the array's own sequence
+    dc = [d[1] for d in defs.get(idm, []) if d[1] is not None and isinstance(d[1], ast.DictComp)]
+    if dc:
+        comp = dc[0]
+        it = comp.generators[0].iter
+        if isinstance(it, ast.Call) and norm(it.func) == "enumerate" and it.args:
+            seq = norm(it.args[0])
+            arr_defs = [d[1] for d in defs.get(arr, []) if d[1] is not None]
+            same = any(isinstance(a, ast.ListComp) and norm(a.generators[0].iter) == seq for a in arr_defs)
+            if same and ("dict.fromkeys" in seq or seq.startswith(("list(dict", "sorted(set"))):
+                ctx.ok("J9", "ids enumerate the de-duplicated sequence the array is built from")
+            else:
+                ctx.violation("J9", comp, f"class ids are enumeration indices over `{seq[:60]}`, while the array `{arr}` is built from another (de-duplicated) sequence: a class "
+                              "that occurs in two pairs gets the index of its last occurrence, which is not its position in the array (ids run past the array's end)")
+            return
+        raise AnalysisError("J9: id map comprehension not understood")
+    ok_n = 0
+    for st in walk_local(f):
+        t, v = PT_assign(st)
+        if isinstance(t, ast.Subscript) and norm(t.value) == idm and v is not None:
+            c = norm(t.slice)
+            is_len = any(isinstance(x, ast.Call) and norm(x) == f"len({arr})" for x in ast.walk(v))
+            fresh = (f"{c} not in {idm}", True) in C.guard_texts(f, st) or (f"{c} in {idm}", False) in C.guard_texts(f, st)
+            blk = C.block_path(f, st)[-1]
+            later = blk[2][blk[3] + 1:]
+            app = any(isinstance(x, ast.Call) and norm(x.func) == f"{arr}.append" and x.args and norm(x.args[0]).startswith(f"{c}.") for s2 in later[:1] for x in ast.walk(s2))
+            if is_len and fresh and app:
+                ok_n += 1
+                ctx.ok("J9", f"`{c}` gets the id len({arr}) when it is appended, once")
+            else:
+                why = "not len(array)" if not is_len else ("given again to a class that already has one" if not fresh else "not followed by the append of that class")
+                ctx.violation("J9", st, f"the id of `{c}` is {why}: ids must be positions in the array of dumped classes")
+    if ok_n < 2:
+        if not ctx.violations:
+            raise AnalysisError("J9: Bijection._classes_to_array is written in a way the analysis does not know")
+
+
+def PT_assign(st):
+    if isinstance(st, ast.Assign) and len(st.targets) == 1:
+        return st.targets[0], st.value
+    if isinstance(st, ast.AnnAssign):
+        return st.target, st.value
+    return None, None
